@@ -105,6 +105,8 @@ Section Reader.
               lk_end := off; lk_max_pfn := lk_max_pfn st |}, 0)
         else
           let curpfn := N.shiftr (get64 (lk_be st) dp 0) (shift_of (lk_page_size st)) in
+          (* the index holds 32-bit page frame numbers (fix 90) *)
+          if 2^32 <=? curpfn then (ERR_NOTIMPL, st, 0) else
           match assoc curpfn (lk_index st) with
           | Some _ => (ERR_CORRUPT, st, 0)                   (* "Duplicate PFN" *)
           | None =>
